@@ -351,6 +351,40 @@ Fixpoint nodup_ids (l : list id) : bool :=
   | x :: r => negb (mem x r) && nodup_ids r
   end.
 
+(* ---------- a remote unit that has not been started on the remote node yet ----------
+   (remote_work.go startOrRestart / runAndMonitor / cancelOrRelease)  Start puts a background job
+   into the unit's job context: it connects to the remote node, with growing pauses while the
+   node is unreachable, and submits the work there (RemoteStarted := true).  Cancel / Release of a
+   unit with RemoteStarted = false cancel that job and WAIT for it (topJC.Cancel ; topJC.Wait)
+   before they record Failed "Locally Cancelled" / remove the unit.  [stop_job = false] is the
+   variant in which a plain Cancel leaves the job alone (seeded mutation). *)
+
+Record rem := mkRem { r_job : bool;        (* the submitting job is alive *)
+                      r_reach : bool;      (* the remote node can be reached *)
+                      r_started : bool;    (* the work has been submitted to the remote node *)
+                      r_cancelled : bool;  (* a Cancel/Release has completed *)
+                      r_state : N }.
+
+Inductive rem_action := RmTry | RmReach (b : bool) | RmCancel | RmRelease.
+
+Definition rem_step (stop_job : bool) (a : rem_action) (r : rem) : rem :=
+  match a with
+  | RmTry => if r_job r && r_reach r
+             then mkRem false (r_reach r) true (r_cancelled r) (r_state r)     (* submitted: the job ends *)
+             else r
+  | RmReach b => mkRem (r_job r) b (r_started r) (r_cancelled r) (r_state r)
+  | RmCancel => if r_started r then r                                       (* goes to the remote node: not modelled *)
+                else mkRem (if stop_job then false else r_job r) (r_reach r) false true Failed
+  | RmRelease => if r_started r then r
+                 else mkRem false (r_reach r) false true (r_state r)
+  end.
+
+Definition rem_run (stop_job : bool) (acts : list rem_action) (r : rem) : rem :=
+  fold_left (fun r a => rem_step stop_job a r) acts r.
+
+(* submitted for an unreachable node: the job is retrying *)
+Definition rem0 : rem := mkRem true false false false Pending.
+
 (* ---------- correspondence cases ----------
    CLog: the VERIF_STATUS_LOG lines of one unit of a daemon that was not restarted, in file
          order, each projected to (writer, kind, old, new); must be a log the model accepts.
